@@ -200,7 +200,7 @@ def path_margins(ctx, job, box):
     prog, L = G['prog'], G['L']
     eng = Engine(prog, ctx)
     box['eng'] = eng
-    ss = SymScreen(ctx, eng, L, buffer='one', tabstops=1)
+    ss = SymScreen(ctx, eng, L, buffer='one', tabstops=1, geom_max=(300, 300))
     ses = Session(eng, L, screen=ss.value)
     pre = ss.value
     a = sym_opt_u32(ctx, 'a')
@@ -296,7 +296,7 @@ META = {
                   'cursor_down', 'cursor_position', 'cariage_return'],
     'bounds': 'lines 1..4 (thorough 5) x columns 1..2, every row/cell symbolically present or absent with distinct '
               'markers and symbolic renditions; every region (top,bottom) and cursor row; counts absent or 0..=9999; '
-              'set_margins on symbolic geometry 1..=140 x 1..=40 with both parameters absent or 0..=9999',
+              'set_margins on symbolic geometry 1..=300 x 1..=300 with both parameters absent or 0..=9999',
     'outside': 'taller/wider screens other than the sparsely written tall ones (quick 2x9; thorough + 1x17, 2x258 with the '
                'count picked around 0..2, 255..257, lines-1..lines+1, 9999); autowrap-triggered scrolling with insert mode on (covered by C04)',
 }
